@@ -58,11 +58,7 @@ class DRR(MultiQueueScheduler):
                         assert class_id == self.flow2class(packet.flow_id)
 
                         if packet.size <= self.deficit[class_id]:
-                            yield env.process(self.send_packet(packet))
-                            self.class_backlog[class_id] -= 1
-                            self.deficit[class_id] -= packet.size
-                            if self.class_backlog[class_id] == 0:
-                                self.deficit[class_id] = 0.0
+                            yield env.process(self.serve(class_id, packet))
                             self.dprint(f"Deficit reduced to {self.deficit[class_id]} for {class_id}")
                         else:
                             assert not class_id in self.head_of_line
@@ -70,6 +66,16 @@ class DRR(MultiQueueScheduler):
                             break
             if self.total_packets == 0:
                 yield self.packets_available.get()
+
+    def serve(self, class_id, packet: Packet) -> ProcessGenerator:
+        """Transmit one packet and settle the class's backlog and credit in the
+        same step, so that an arrival in the instant of the departure cannot
+        keep alive the credit of a class whose queue has just emptied."""
+        yield from self.send_packet(packet)
+        self.class_backlog[class_id] -= 1
+        self.deficit[class_id] -= packet.size
+        if self.class_backlog[class_id] == 0:
+            self.deficit[class_id] = 0.0
 
     def put(self, packet: Packet):
         """Queue the packet with the other packets of its class."""
